@@ -167,8 +167,8 @@ func corpus() []corpusEntry {
 		{name: "dofile-stdin", script: `return {pcall(dofile)}`},
 		{name: "dofile-missing", script: `return {pcall(dofile, "` + S + `/missing.lua")}`},
 		{name: "dofile-directory", script: `return {pcall(dofile, "` + S + `")}`},
-		{name: "loadfile-missing", script: `local f, e = loadfile("/nonexistent/x.lua") return {f = tostring(f)}`, expect: "table"},
-		{name: "loadfile-dev-zero-guarded", script: `local f, e = loadfile("` + S + `/missing/zero") return {f = tostring(f)}`, expect: "table"},
+		{name: "loadfile-missing", script: `local ok, f = pcall(loadfile, "/nonexistent/x.lua") return {f = tostring(f)}`, expect: "table"},
+		{name: "loadfile-missing-dir", script: `local ok, f = pcall(loadfile, "` + S + `/missing/zero") return {f = tostring(f)}`, expect: "table"},
 		{name: "file-loader-globals-are-nil", script: `return {dofile = type(dofile), loadfile = type(loadfile), require = type(require)}`,
 			expect: "table", json: `{"dofile":"nil","loadfile":"nil","require":"nil"}`, noIngr: true, known: sigLoaders},
 		// ---- in-VM code loading is not an escape, but must stay inside the sandbox
